@@ -85,6 +85,8 @@ def _shared_cb(node, memo):
 
 
 _ITER_CALLS = [0]
+_REFUSED = [0]
+LAST_REFUSED = False
 _ITER_KEYED = {}
 
 
@@ -147,8 +149,26 @@ def impl_visit(tree, ser, path, m, add_self, table):
     return {"calls": calls, "out": out}
 
 
-def setup_tree(ctx, spec, typed=False):
+def setup_tree(ctx, spec, typed=False, refused=None):
     tree = adapter.build(spec, ctx.pool, typed=typed)
+    _REFUSED[0] += 1
+    global LAST_REFUSED
+    LAST_REFUSED = (_REFUSED[0] % 4 == 0) if refused is None else bool(refused)
+    if LAST_REFUSED:
+        # a call that the tree refuses precedes the traversals (the application caught the error): the tree is as it was
+        nodes = list(tree)
+        pair = next(((a, b) for a in nodes for b in nodes if b is not a and b.parent is not a), None)
+        if pair:
+            before_n = len(nodes)
+            try:
+                pair[0].add("refused-data", before=pair[1], **({"kind": "zz"} if typed else {}))
+                ok = True
+            except Exception:  # noqa
+                ok = False
+            if ok or len(list(tree)) != before_n:
+                for n in list(tree):
+                    if n.data == "refused-data":
+                        n.remove()
     ser = adapter.Serials()
     ser.by_obj[id(tree.system_root)] = 0
     ser.keep.append(tree.system_root)
@@ -162,7 +182,7 @@ def check_iter(ctx, out, tree, ser, tj, spec, path, m, add_self):
     _ITER_KEYED[key] = _ITER_KEYED.get(key, 0) + 1
     inter = _ITER_KEYED[key] % 2 == 0          # per kind of call: a shared counter runs in step with the enumeration
     impl = impl_iter(tree, ser, path, m, add_self, inter)
-    case = dict(kind="iter", spec=spec, path=list(path), m=m, self=add_self, inter=inter)
+    case = dict(kind="iter", spec=spec, path=list(path), m=m, self=add_self, inter=inter, refused=LAST_REFUSED)
     if m in ("random", "unordered") and not path and not add_self:
         # Tree.iterator: any permutation of all nodes
         want = sorted(adapter.ids(list(tree.iterator()), ser))
@@ -323,7 +343,7 @@ def replay(ctx, rp):
 
     case = rp["case"]
     spec = tuplify(case["spec"])
-    tree, ser, tj = setup_tree(ctx, spec, bool(case.get("typed")))
+    tree, ser, tj = setup_tree(ctx, spec, bool(case.get("typed")), refused=bool(case.get("refused")))
     out = core.Outcome()
     path = tuple(case["path"])
     if case["kind"] == "iter":
